@@ -96,21 +96,19 @@ func bracesSeqRec(word *syntax.Word, yield func(*syntax.Word) bool) bool {
 				width = max(len(fromLit), len(toLit))
 			}
 			upward := from <= to
-			incr := int64(1)
+			// The step is the absolute value of the increment. Keep it as a uint64,
+			// since the absolute value of math.MinInt64 does not fit in an int64.
+			step := uint64(1)
 			if len(br.Elems) > 2 {
 				// ParseInt with bit size 64 to ensure consistent behavior on 32-bit platforms.
 				n, _ := strconv.ParseInt(br.Elems[2].Lit(), 10, 64)
 				if n < 0 {
-					n = -n // only the absolute value of the step matters
-				}
-				if n != 0 {
-					incr = n
+					step = -uint64(n)
+				} else if n > 0 {
+					step = uint64(n)
 				}
 			}
-			if !upward {
-				incr = -incr
-			}
-			for n := from; (upward && n <= to) || (!upward && n >= to); n += incr {
+			for n := from; ; {
 				next := *word
 				lit := &syntax.Lit{}
 				switch {
@@ -124,6 +122,20 @@ func bracesSeqRec(word *syntax.Word, yield func(*syntax.Word) bool) bool {
 				next.Parts = append([]syntax.WordPart{lit}, rest...)
 				if !expand(&next) {
 					return false
+				}
+				// Stop once the next element would go past the end of the range.
+				// The distance left is computed as a uint64, like the step itself,
+				// so that ranges near the int64 limits do not overflow and wrap around.
+				if upward {
+					if uint64(to)-uint64(n) < step {
+						break
+					}
+					n = int64(uint64(n) + step)
+				} else {
+					if uint64(n)-uint64(to) < step {
+						break
+					}
+					n = int64(uint64(n) - step)
 				}
 			}
 			return true
